@@ -423,7 +423,7 @@ def check_generic(prop, tier, cfgs, n_quick, n_thorough, sigfun, stages, level="
                 mp.port = None
                 mp.qfeature = (e.get("quarantine") or ["?"])[0]
                 progs.append(mp)
-        if prop in ("C01", "C02"):
+        if prop in ("C01", "C02", "C03", "C04"):
             tp = Program(len(progs), gen_mini.occurrence_table(), root, "table:occurrence")
             tp.port = None
             progs.append(tp)
